@@ -141,16 +141,16 @@ Proof.
     destruct (IH _ _ H2) as [H3 H4]. split; [cbn [wf_go]; rewrite H1, H3; reflexivity | exact H4].
 Qed.
 
-(* ---- the parse of "<path><separator><tail>" ---- *)
-Theorem parse_appended sp strip l x :
-  l <> [] -> wf sp l = true -> wf_go false (l ++ [x]) = true -> needs_sep x = false ->
-  parse (Forced sp) strip (render_ref sp l ++ c1 (sep_char sp) ++ body (sep_char sp) x)
-  = Ok (map (kseg strip (sep_char sp)) (map plain_x l) ++ [kseg strip (sep_char sp) (plain_x (tail_eff x))])%list.
+(* ---- the parse of the writer's text followed by any rest ---- *)
+Lemma parse_then sp strip l rest out :
+  l <> [] -> wf sp l = true ->
+  (forall st1, Inv (last_coll false l) (ksegs sp strip (map plain_x l)) st1 ->
+     exists st2, run strip (sep_char sp) st1 rest = Ok st2 /\ finish st2 = Ok out) ->
+  parse (Forced sp) strip (render_ref sp l ++ rest) = Ok out.
 Proof.
-  intros Hne Hwf Hgo2 Hns.
-  destruct (wf_go_tail _ _ _ Hgo2) as [Hgo Hx].
+  intros Hne Hwf Htail.
+  destruct (wf_split _ _ Hwf) as [Hgo _].
   pose proof (wf_nonblank sp l Hne Hwf) as Hb.
-  set (rest := c1 (sep_char sp) ++ body (sep_char sp) x).
   assert (Hb2 : nonblank (render_ref sp l ++ rest) = true) by (apply nonblank_app; exact Hb).
   unfold parse. rewrite (normalize_nonblank _ Hb2). cbn [effective_sep].
   rewrite <- render_x_plain in *. set (L := map plain_x l) in *.
@@ -159,17 +159,6 @@ Proof.
   assert (HL : exists y r, L = y :: r).
   { unfold L. destruct l as [|a b]; [congruence|]. cbn. eauto. }
   destruct HL as (y & r & EL).
-  (* the rest of the text, from any state the writer's text leaves *)
-  assert (Htail : forall st1, Inv (last_coll false l) (ksegs sp strip L) st1 ->
-            exists st2, run strip (sep_char sp) st1 rest = Ok st2
-                        /\ finish st2 = Ok (ksegs sp strip L ++ [kseg strip (sep_char sp) (plain_x (tail_eff x))])%list).
-  { intros st1 (S & ty0 & A & acc & sa & sc & p & -> & Hp & E & Hc1 & Hc2).
-    unfold rest. change (c1 (sep_char sp) ++ ?z) with (String (sep_char sp) z). cbn [run].
-    rewrite sep_step_top, Hp. cbn [bind].
-    destruct (tail_after_sep sp strip x (S ++ p)%list A sc (last_coll false l) "" Hx Hns) as (st2 & H1 & H2).
-    { intros Hl. destruct (Hc1 Hl) as (_ & _ & ->). reflexivity. }
-    rewrite app_nil_r_s in H1. cbn [run] in H1. exists st2. split; [exact H1|].
-    rewrite (inv_finish _ _ _ H2), E. reflexivity. }
   destruct (render_x sp L ++ rest) as [|c0 t] eqn:Et; [discriminate Hb2|].
   destruct sp.
   - (* dot *)
@@ -198,6 +187,37 @@ Proof.
     + rewrite init_is_top. cbn [sepc_of run]. rewrite (sep_step_top strip Slash). cbn [pend nonempty bind app].
       rewrite run_app. cbn [sep_char] in H1, H3 |- *. rewrite H1. cbn [bind]. rewrite H3. cbn [bind]. exact H4.
     + exfalso. eapply nth_slash. exact En.
+Qed.
+
+(* ---- the parse of "<path><separator><tail>" ---- *)
+Theorem parse_appended sp strip l x :
+  l <> [] -> wf sp l = true -> wf_go false (l ++ [x]) = true -> needs_sep x = false ->
+  parse (Forced sp) strip (render_ref sp l ++ c1 (sep_char sp) ++ body (sep_char sp) x)
+  = Ok (map (kseg strip (sep_char sp)) (map plain_x l) ++ [kseg strip (sep_char sp) (plain_x (tail_eff x))])%list.
+Proof.
+  intros Hne Hwf Hgo2 Hns.
+  destruct (wf_go_tail _ _ _ Hgo2) as [Hgo Hx].
+  apply parse_then; [exact Hne | exact Hwf |].
+  intros st1 (S & ty0 & A & acc & sa & sc & p & -> & Hp & E & Hc1 & Hc2).
+  change (c1 (sep_char sp) ++ ?z) with (String (sep_char sp) z). cbn [run].
+  rewrite sep_step_top, Hp. cbn [bind].
+  destruct (tail_after_sep sp strip x (S ++ p)%list A sc (last_coll false l) "" Hx Hns) as (st2 & H1 & H2).
+  { intros Hl. destruct (Hc1 Hl) as (_ & _ & ->). reflexivity. }
+  rewrite app_nil_r_s in H1. cbn [run] in H1. exists st2. split; [exact H1|].
+  rewrite (inv_finish _ _ _ H2), E. reflexivity.
+Qed.
+
+(* ---- the parse of "<path><separator>&": the mark alone adds no segment ---- *)
+Theorem parse_amp_tail sp strip l :
+  l <> [] -> wf sp l = true ->
+  parse (Forced sp) strip (render_ref sp l ++ c1 (sep_char sp) ++ "&")
+  = Ok (map (kseg strip (sep_char sp)) (map plain_x l)).
+Proof.
+  intros Hne Hwf. apply parse_then; [exact Hne | exact Hwf |].
+  intros st1 (S & ty0 & A & acc & sa & sc & p & -> & Hp & E & Hc1 & Hc2).
+  change (c1 (sep_char sp) ++ "&") with (String (sep_char sp) (String "&"%char "")). cbn [run].
+  rewrite sep_step_top, Hp. cbn [bind]. rewrite amp_top. cbn [bind].
+  eexists. split; [reflexivity|]. rewrite finish_top. cbn [pend nonempty bind]. rewrite app_nil_r. rewrite E. reflexivity.
 Qed.
 
 (* ====================================================================== *)
@@ -433,3 +453,368 @@ Proof.
   - apply escaped_canon; assumption.
 Qed.
 End PopSelf.
+
+(* ====================================================================== *)
+(* a tail with its own demarcation is either written in canonical form or
+   differs from its canonical form somewhere counted from the end *)
+
+Lemma rev_snoc a c : rev_str (a ++ String c "") = String c (rev_str a).
+Proof. rewrite rev_str_app. reflexivity. Qed.
+
+Lemma clash_last1 (U V : string) a b :
+  Ascii.eqb a b = false -> clash (rev_str (U ++ String a "]")) (rev_str (V ++ String b "]")) = true.
+Proof.
+  intros H. change (String a "]") with (String a "" ++ "]"). change (String b "]") with (String b "" ++ "]").
+  rewrite <- !app_assoc_s, !rev_snoc. cbn. rewrite H. reflexivity.
+Qed.
+
+Lemma clash_last2 (U V : string) a b q :
+  Ascii.eqb a b = false ->
+  clash (rev_str (U ++ String a (String q "]"))) (rev_str (V ++ String b (String q "]"))) = true.
+Proof.
+  intros H. change (String a (String q "]")) with (String a "" ++ String q "" ++ "]").
+  change (String b (String q "]")) with (String b "" ++ String q "" ++ "]").
+  rewrite <- !app_assoc_s, !rev_snoc. cbn. rewrite Ascii.eqb_refl, H. reflexivity.
+Qed.
+
+Ltac str_norm := unfold c1; repeat first [rewrite !app_assoc_s | progress (cbn [append])]; reflexivity.
+
+Lemma snoc_cases : forall s : string, s = "" \/ exists s' c, s = s' ++ String c "".
+Proof.
+  induction s as [|c r IH]; [left; reflexivity|]. right.
+  destruct IH as [->|(s' & d & ->)]; [exists "", c; reflexivity | exists (String c s'), d; reflexivity].
+Qed.
+
+Lemma all_chars_snoc p s c : all_chars p (s ++ String c "") = true -> p c = true.
+Proof.
+  induction s as [|d r IH]; cbn; intros H.
+  - rewrite andb_true_r in H. exact H.
+  - apply andb_true_iff in H. apply IH. apply H.
+Qed.
+
+Lemma esc_with_snoc S : forall t c,
+  esc_with S (t ++ String c "")
+  = esc_with S t ++ (if mem_ascii c S then String "\"%char (String c "") else String c "").
+Proof.
+  induction t as [|d r IH]; intros c; [cbn; destruct (mem_ascii c S); reflexivity|].
+  cbn [append esc_with]. rewrite IH. destruct (mem_ascii d S); reflexivity.
+Qed.
+
+Lemma name_char_not_close c : is_name_char c = true -> Ascii.eqb c "]"%char = false.
+Proof. intros H. all_ascii c; vm_compute in H; try discriminate H; reflexivity. Qed.
+
+Lemma op_last m :
+  m <> MRegex ->
+  exists o c0, op_text m = o ++ String c0 "" /\ Ascii.eqb c0 "'"%char = false /\ Ascii.eqb c0 """"%char = false.
+Proof.
+  intros H. destruct m; try congruence;
+    first [ exists "", "%"%char; repeat split; reflexivity | exists "", "$"%char; repeat split; reflexivity
+          | exists "", "="%char; repeat split; reflexivity | exists "", "^"%char; repeat split; reflexivity
+          | exists "", ">"%char; repeat split; reflexivity | exists "", "<"%char; repeat split; reflexivity
+          | exists ">", "="%char; repeat split; reflexivity | exists "<", "="%char; repeat split; reflexivity ].
+Qed.
+
+Lemma quote_in_term_sets q st :
+  st_quote st = Some q -> mem_ascii (qchar q) (term_specials st) = true /\ mem_ascii (qchar q) operand_specials = true.
+Proof. intros H. unfold term_specials. rewrite H. destruct q, (st_nest st); split; reflexivity. Qed.
+
+(* a search whose term is demarcated by quotes never ends like its canonical form *)
+Lemma quoted_term_clash q Q (PX P term : string) c0 :
+  mem_ascii (qchar q) Q = true ->
+  Ascii.eqb c0 (qchar q) = false ->
+  clash (rev_str ((PX ++ String c0 "") ++ esc_with operand_specials term ++ "]"))
+        (rev_str (P ++ (c1 (qchar q) ++ esc_with Q term ++ c1 (qchar q)) ++ "]")) = true.
+Proof.
+  intros HQ Hc0.
+  assert (HO : mem_ascii (qchar q) operand_specials = true) by (destruct q; reflexivity).
+  destruct (snoc_cases term) as [->|(t' & c & ->)].
+  - cbn [esc_with append].
+    replace ((PX ++ String c0 "") ++ "]") with (PX ++ String c0 "]") by str_norm.
+    replace (P ++ (c1 (qchar q) ++ c1 (qchar q)) ++ "]") with ((P ++ c1 (qchar q)) ++ String (qchar q) "]")
+      by str_norm.
+    apply clash_last1. exact Hc0.
+  - rewrite !esc_with_snoc.
+    destruct (Ascii.eqb c (qchar q)) eqn:Ec.
+    + apply Ascii.eqb_eq in Ec. subst c. rewrite HQ, HO.
+      replace ((PX ++ String c0 "") ++ (esc_with operand_specials t' ++ String "\"%char (String (qchar q) "")) ++ "]")
+        with (((PX ++ String c0 "") ++ esc_with operand_specials t') ++ String "\"%char (String (qchar q) "]"))
+        by str_norm.
+      replace (P ++ (c1 (qchar q) ++ (esc_with Q t' ++ String "\"%char (String (qchar q) "")) ++ c1 (qchar q)) ++ "]")
+        with ((P ++ c1 (qchar q) ++ esc_with Q t' ++ String "\"%char "") ++ String (qchar q) (String (qchar q) "]"))
+        by str_norm.
+      apply clash_last2. destruct q; reflexivity.
+    + set (wO := if mem_ascii c operand_specials then String "\"%char (String c "") else String c "").
+      set (wQ := if mem_ascii c Q then String "\"%char (String c "") else String c "").
+      assert (HwO : exists u, wO = u ++ String c "").
+      { unfold wO. destruct (mem_ascii c operand_specials); [exists (String "\"%char "") | exists ""]; reflexivity. }
+      destruct HwO as (u & ->).
+      replace ((PX ++ String c0 "") ++ (esc_with operand_specials t' ++ u ++ String c "") ++ "]")
+        with (((PX ++ String c0 "") ++ esc_with operand_specials t' ++ u) ++ String c "]")
+        by str_norm.
+      replace (P ++ (c1 (qchar q) ++ (esc_with Q t' ++ wQ) ++ c1 (qchar q)) ++ "]")
+        with ((P ++ c1 (qchar q) ++ esc_with Q t' ++ wQ) ++ String (qchar q) "]")
+        by str_norm.
+      apply clash_last1. exact Ec.
+Qed.
+
+Lemma same_len_rev_clash_or (X B : string) :
+  String.length B = String.length X -> B = X \/ clash (rev_str X) (rev_str B) = true.
+Proof.
+  intros H. destruct (same_len_rev_clash X B (eq_sym H)) as [E|E]; [left; symmetry; exact E | right; exact E].
+Qed.
+
+Theorem self_tail_cases sp prev x :
+  needs_sep x = false -> wf_seg prev x = true -> wfc_seg x = true ->
+  body (sep_char sp) x = tail_canon sp x
+  \/ clash (rev_str (tail_canon sp x)) (rev_str (body (sep_char sp) x)) = true.
+Proof.
+  intros Hns Hwf Hc. unfold tail_canon.
+  destruct x as [[ty at_] st]. destruct ty as [[]|]; try discriminate Hns; destruct at_; try discriminate Hwf.
+  - (* [&anchor] : the canonical form of a popped anchor is &anchor *)
+    cbn in Hns. apply negb_false_iff in Hns. right.
+    cbn [wf_seg] in Hwf. rewrite Hns in Hwf. cbn [orb] in Hwf. rewrite andb_true_r in Hwf.
+    apply andb_true_iff in Hwf. destruct Hwf as [H1 H2].
+    cbn [restyle plain_x fst snd body_x body st_bracket negb]. rewrite Hns.
+    destruct (snoc_cases s) as [->|(n' & c & ->)]; [discriminate H1|].
+    pose proof (name_char_not_close c (all_chars_snoc _ _ _ H2)) as Hcl.
+    replace ("&" ++ n' ++ String c "") with (("&" ++ n') ++ String c "") by str_norm.
+    replace ("[&" ++ (n' ++ String c "") ++ "]") with (("[&" ++ n') ++ String c "]") by str_norm.
+    rewrite rev_snoc.
+    change (String c "]") with (String c "" ++ "]"). rewrite <- app_assoc_s, !rev_snoc. cbn.
+    rewrite Hcl. reflexivity.
+  - (* collector *) left. destruct op; reflexivity.
+  - (* slice *) left. reflexivity.
+  - (* index *) left. reflexivity.
+  - (* search *)
+    cbn [restyle plain_x fst snd body_x body st_quote st_prefix st_delim st_nest seg_term andb negb].
+    rewrite andb_false_r, andb_true_r. change ("" ++ ?z) with z.
+    destruct m.
+    9: { apply same_len_rev_clash_or.
+         destruct inv, (st_prefix st); cbn [andb negb]; unfold c1; rewrite ?length_app_s; cbn [String.length]; lia. }
+    all: destruct (st_quote st) as [q|] eqn:Eq;
+      [ right;
+        match goal with |- context [op_text ?m] =>
+          destruct (op_last m) as (o & c0 & Eo & N1 & N2); [discriminate|] end;
+        destruct (quote_in_term_sets q st Eq) as [HQ _];
+        match goal with
+        | |- clash (rev_str ("[" ++ ?A ++ ?i ++ ?op ++ ?E ++ "]")) (rev_str ("[" ++ ?pre ++ ?A ++ ?post ++ ?op ++ ?W ++ "]")) = true =>
+            replace ("[" ++ A ++ i ++ op ++ E ++ "]") with ((("[" ++ A ++ i ++ o) ++ String c0 "") ++ E ++ "]")
+              by (rewrite Eo; str_norm);
+            replace ("[" ++ pre ++ A ++ post ++ op ++ W ++ "]") with (("[" ++ pre ++ A ++ post ++ op) ++ W ++ "]")
+              by str_norm
+        end;
+        apply quoted_term_clash; [exact HQ | destruct q; assumption]
+      | unfold term_specials; rewrite Eq; cbn [st_quote]; apply same_len_rev_clash_or;
+        destruct inv, (st_prefix st); cbn [andb negb]; rewrite ?length_app_s; cbn [String.length]; lia ].
+  - (* keyword *) left. reflexivity.
+Qed.
+
+(* ====================================================================== *)
+(* (3) the intersection collector "&(e)": read as the plain collector (e);
+   pop() cuts "(e)" and leaves "<path><separator>&" *)
+Lemma starts_with_app_same u : forall v w, starts_with (u ++ v) (u ++ w) = starts_with v w.
+Proof. induction u as [|c u IH]; intros v w; [reflexivity|]. cbn. rewrite Ascii.eqb_refl. apply IH. Qed.
+
+Lemma ends_with_app_same a t s : ends_with (a ++ s) (t ++ s) = ends_with a t.
+Proof. unfold ends_with. rewrite !rev_str_app. apply starts_with_app_same. Qed.
+
+Lemma escaped_amp sp l p2 :
+  l <> [] -> wf sp l = true -> dot_text_ok sp (render_ref sp l) = true ->
+  fst (y_escaped (y_set_original (render_ref sp l ++ c1 (sep_char sp) ++ "&") p2)) = Ok (segs_of l).
+Proof.
+  intros Hne Hwf Hdot. pose proof (wf_nonblank sp l Hne Hwf) as Hb.
+  assert (Hb2 : nonblank (render_ref sp l ++ c1 (sep_char sp) ++ "&") = true) by (apply nonblank_app; exact Hb).
+  unfold y_set_original. rewrite (normalize_nonblank _ Hb2).
+  unfold y_escaped. cbn [y_esc seglist_nonempty]. unfold y_separator. cbn [y_sep y_orig y_unesc y_esc y_strd].
+  rewrite (infer_sep_text sp _ Hb2 (dot_ok_app sp _ _ Hb Hdot)) by (intros ->; eexists; reflexivity).
+  rewrite <- parse_forced_es by (apply normalize_nonblank; exact Hb2).
+  rewrite (parse_amp_tail sp true l Hne Hwf), map_kseg_true. reflexivity.
+Qed.
+
+Lemma self_pop_and sp l e st :
+  let x := ((Some TCollector, ACollector CAnd e), st) in
+  l <> [] -> wfc sp l = true -> wfc sp (l ++ [x]) = true -> dot_text_ok sp (render_ref sp l) = true ->
+  exists p', y_pop (y_append (body (sep_char sp) x) (y_new (render_ref sp l)))
+             = (Ok (Some TCollector, ACollector CNone e), p')
+             /\ y_orig p' = render_ref sp l ++ c1 (sep_char sp) ++ "&"
+             /\ fst (y_escaped p') = Ok (segs_of l).
+Proof.
+  intros x Hne Hwfc1 Hwfc Hdot.
+  pose proof (self_pop_unfold sp l x Hne Hwfc1 Hwfc Hdot eq_refl) as Hu. cbv zeta in Hu.
+  destruct (wfc_split _ _ Hwfc1) as [Hwf _]. pose proof (wf_nonblank sp l Hne Hwf) as Hb.
+  set (T := render_ref sp l) in *. set (X := "(" ++ e ++ ")").
+  change (tail_canon sp (tail_eff x)) with X in Hu.
+  change (body (sep_char sp) x) with (String "&"%char X) in *.
+  change (kseg false (sep_char sp) (plain_x (tail_eff x))) with (Some TCollector, ACollector CNone e) in Hu.
+  set (T' := T ++ c1 (sep_char sp) ++ "&").
+  assert (EN : T ++ c1 (sep_char sp) ++ String "&"%char X = T' ++ X) by (unfold T'; str_norm).
+  rewrite EN in Hu.
+  assert (E1 : ends_with (c1 (sep_char sp) ++ X) (T' ++ X) = false).
+  { rewrite ends_with_app_same. unfold T'.
+    replace (T ++ c1 (sep_char sp) ++ "&") with ((T ++ c1 (sep_char sp)) ++ String "&"%char "") by str_norm.
+    unfold ends_with. rewrite rev_snoc. destruct sp; reflexivity. }
+  assert (E2 : ends_with X (T' ++ X) = true) by apply ends_with_app.
+  assert (Ecut : take (str_len (T' ++ X) - str_len X) (T' ++ X) = T') by apply cut_suffix.
+  assert (Hfin : forall p2, fst (y_escaped (y_set_original T' p2)) = Ok (segs_of l)).
+  { intros p2. apply escaped_amp; assumption. }
+  assert (Horig : forall p2, y_orig (y_set_original T' p2) = T').
+  { intros p2. unfold y_set_original. cbn [y_orig]. apply normalize_nonblank. unfold T'. apply nonblank_app. exact Hb. }
+  rewrite Hu, E1. destruct sp.
+  - (* dot: the second test matches *)
+    cbn [slash_pre]. change ("" ++ X) with X. rewrite E2, Ecut.
+    eexists. split; [reflexivity|]. split; [apply Horig | apply Hfin].
+  - (* slash: the third test matches *)
+    cbn [slash_pre]. change (c1 (sep_char Slash)) with "/" in E1. rewrite E1.
+    cbn [sepopt_eqb andb]. change (drop 1 ("/" ++ X)) with X. rewrite E2.
+    assert (Ea : str_len (T' ++ X) - str_len ("/" ++ X) + 1 = str_len (T' ++ X) - str_len X).
+    { unfold str_len, T', c1. rewrite !length_app_s. cbn [String.length]. lia. }
+    rewrite Ea, Ecut. eexists. split; [reflexivity|]. split; [apply Horig | apply Hfin].
+Qed.
+
+(* ---- clause 4 for every tail that carries its own demarcation ---- *)
+Theorem append_pop_self_cut sp l x :
+  l <> [] -> wfc sp l = true -> wfc sp (l ++ [x]) = true ->
+  dot_text_ok sp (render_ref sp l) = true -> needs_sep x = false ->
+  String.eqb (body (sep_char sp) x) (tail_canon sp (tail_eff x)) = true ->
+  exists p', y_pop (y_append (body (sep_char sp) x) (y_new (render_ref sp l)))
+             = (Ok (kseg false (sep_char sp) (plain_x (tail_eff x))), p')
+             /\ y_orig p' = render_ref sp l /\ fst (y_escaped p') = Ok (segs_of l).
+Proof.
+  intros Hne H1 H2 Hd Hs Hb. apply String.eqb_eq in Hb. apply self_pop_cut; assumption.
+Qed.
+
+Theorem append_pop_self sp l x :
+  l <> [] -> wfc sp l = true -> wfc sp (l ++ [x]) = true ->
+  dot_text_ok sp (render_ref sp l) = true -> needs_sep x = false ->
+  dot_text_ok sp (canon_of sp sp l) = true -> (sp = Dot -> nonblank (canon_of sp sp l) = true) ->
+  exists p', y_pop (y_append (body (sep_char sp) x) (y_new (render_ref sp l)))
+             = (Ok (kseg false (sep_char sp) (plain_x (tail_eff x))), p')
+             /\ fst (y_escaped p') = Ok (segs_of l).
+Proof.
+  intros Hne Hwfc1 Hwfc Hd Hs Hd2 Hnb.
+  destruct (and_collector x) eqn:Ea.
+  - destruct x as [[ty at_] st]. destruct ty as [[]|]; try discriminate Ea. destruct at_; try discriminate Ea.
+    destruct op; try discriminate Ea.
+    destruct (self_pop_and sp l expr st Hne Hwfc1 Hwfc Hd) as (p' & H1 & _ & H3). exists p'. split; [exact H1 | exact H3].
+  - destruct (self_x_wf sp l x Hwfc) as [Hx Hcx].
+    rewrite (tail_eff_id x Ea).
+    destruct (self_tail_cases sp _ x Hs Hx Hcx) as [Hb|Hcl].
+    + destruct (self_pop_cut sp l x Hne Hwfc1 Hwfc Hd Hs) as (p' & H1 & _ & H3); [rewrite (tail_eff_id x Ea); exact Hb|].
+      rewrite (tail_eff_id x Ea) in H1. exists p'. split; [exact H1 | exact H3].
+    + destruct (self_pop_rebuild sp l x Hne Hwfc1 Hwfc Hd Hs) as (p' & H1 & _ & H3);
+        [rewrite (tail_eff_id x Ea); exact Hcl | exact Hd2 | exact Hnb |].
+      rewrite (tail_eff_id x Ea) in H1. exists p'. split; [exact H1 | exact H3].
+Qed.
+
+(* ====================================================================== *)
+(* the tails written after a separator (key, "*", "**", bare anchor): the
+   guard "canonical tail or no suffix match" of RtPop.append_pop always holds *)
+Lemma clash_end1 (U V : string) a b :
+  Ascii.eqb a b = false -> clash (rev_str (U ++ String a "")) (rev_str (V ++ String b "")) = true.
+Proof. intros H. rewrite !rev_snoc. cbn. rewrite H. reflexivity. Qed.
+
+Lemma clash_end2 (U V : string) a b q :
+  Ascii.eqb a b = false ->
+  clash (rev_str (U ++ String a (String q ""))) (rev_str (V ++ String b (String q ""))) = true.
+Proof.
+  intros H. change (String a (String q "")) with (String a "" ++ String q "").
+  change (String b (String q "")) with (String b "" ++ String q "").
+  rewrite <- !app_assoc_s, !rev_snoc. cbn. rewrite Ascii.eqb_refl, H. reflexivity.
+Qed.
+
+Lemma quoted_key_clash q E k :
+  nonempty k = true -> mem_ascii (qchar q) E = true ->
+  clash (rev_str (esc_with E k)) (rev_str (c1 (qchar q) ++ esc_with quoted_specials k ++ c1 (qchar q))) = true.
+Proof.
+  intros Hk HE.
+  assert (HQ : mem_ascii (qchar q) quoted_specials = true) by (destruct q; reflexivity).
+  destruct (snoc_cases k) as [->|(k' & c & ->)]; [discriminate Hk|].
+  rewrite !esc_with_snoc. destruct (Ascii.eqb c (qchar q)) eqn:Ec.
+  - apply Ascii.eqb_eq in Ec. subst c. rewrite HQ, HE.
+    replace (c1 (qchar q) ++ (esc_with quoted_specials k' ++ String "\"%char (String (qchar q) "")) ++ c1 (qchar q))
+      with ((c1 (qchar q) ++ esc_with quoted_specials k' ++ String "\"%char "") ++ String (qchar q) (String (qchar q) ""))
+      by str_norm.
+    apply clash_end2. destruct q; reflexivity.
+  - set (wE := if mem_ascii c E then String "\"%char (String c "") else String c "").
+    assert (HwE : exists u, wE = u ++ String c "").
+    { unfold wE. destruct (mem_ascii c E); [exists (String "\"%char "") | exists ""]; reflexivity. }
+    destruct HwE as (u & ->).
+    replace (esc_with E k' ++ u ++ String c "") with ((esc_with E k' ++ u) ++ String c "") by str_norm.
+    match goal with |- context [esc_with quoted_specials k' ++ ?w] => set (wQ := w) end.
+    replace (c1 (qchar q) ++ (esc_with quoted_specials k' ++ wQ) ++ c1 (qchar q))
+      with ((c1 (qchar q) ++ esc_with quoted_specials k' ++ wQ) ++ String (qchar q) "") by str_norm.
+    apply clash_end1. exact Ec.
+Qed.
+
+Theorem sep_tail_cases sp prev x :
+  needs_sep x = true -> wf_seg prev x = true ->
+  body (sep_char sp) x = tail_canon sp x
+  \/ clash (rev_str (tail_canon sp x)) (rev_str (body (sep_char sp) x)) = true.
+Proof.
+  intros Hns Hwf. unfold tail_canon.
+  destruct x as [[ty at_] st]. destruct ty as [[]|]; try discriminate Hns; destruct at_; try discriminate Hwf.
+  - (* bare anchor *) left. cbn in Hns. apply negb_true_iff in Hns. cbn. rewrite Hns. reflexivity.
+  - (* key *)
+    cbn [restyle plain_x fst snd body_x body st_quote]. unfold key_set. cbn [plain_x fst snd].
+    destruct (st_quote st) as [q|] eqn:Eq.
+    + right. cbn [wf_seg] in Hwf. apply andb_true_iff in Hwf. destruct Hwf as [Hwf _].
+      apply andb_true_iff in Hwf. destruct Hwf as [Hwf _]. apply andb_true_iff in Hwf. destruct Hwf as [H1 _].
+      apply quoted_key_clash; [exact H1|]. rewrite mem_app. destruct q; reflexivity.
+    + left. apply esc_with_ext. intros c. rewrite !mem_app. cbn [mem_ascii orb].
+      destruct (mem_ascii c (key_specials (sep_char sp))); reflexivity.
+  - (* ** *) left. reflexivity.
+  - (* * *) left. reflexivity.
+Qed.
+
+Lemma clash_no_suffix_match sp l x :
+  clash (rev_str (tail_canon sp x)) (rev_str (body (sep_char sp) x)) = true -> no_suffix_match sp l x = true.
+Proof.
+  intros Hcl. unfold no_suffix_match, prefixed_text, removable_text.
+  rewrite <- !app_assoc_s.
+  rewrite (clash_no_suffix _ _ (c1 (sep_char sp)) _ Hcl).
+  rewrite (clash_no_suffix _ _ (match sp with Slash => "/" | Dot => "" end) _ Hcl).
+  destruct sp; [reflexivity|]. cbn [sepopt_eqb andb negb]. change (drop 1 ("/" ++ ?z)) with ("" ++ z).
+  rewrite (clash_no_suffix _ _ "" _ Hcl). reflexivity.
+Qed.
+
+(* ---- clause 4, every kind of tail ---- *)
+Theorem append_pop_all sp l x :
+  l <> [] -> wfc sp l = true -> wfc sp (l ++ [x]) = true ->
+  dot_text_ok sp (render_ref sp l) = true ->
+  dot_text_ok sp (canon_of sp sp l) = true -> (sp = Dot -> nonblank (canon_of sp sp l) = true) ->
+  exists sg p', y_pop (y_append (body (sep_char sp) x) (y_new (render_ref sp l))) = (Ok sg, p')
+                /\ sg = kseg false (sep_char sp) (plain_x (tail_eff x))
+                /\ fst (y_escaped p') = Ok (segs_of l).
+Proof.
+  intros Hne Hwfc1 Hwfc Hd Hd2 Hnb.
+  destruct (needs_sep x) eqn:Hs.
+  - assert (Ee : tail_eff x = x).
+    { apply tail_eff_id. destruct x as [[ty at_] st]. destruct ty as [[]|]; try reflexivity; discriminate Hs. }
+    rewrite Ee. apply append_pop; try assumption.
+    destruct (wfc_split _ _ Hwfc) as [Hw _]. destruct (wf_split _ _ Hw) as [Hgo _].
+    destruct (wf_go_tail _ _ _ Hgo) as [_ Hx].
+    destruct (sep_tail_cases sp _ x Hs Hx) as [Hb|Hcl].
+    + unfold tail_canonical. rewrite Hb, String.eqb_refl. reflexivity.
+    + rewrite (clash_no_suffix_match sp l x Hcl). apply orb_true_r.
+  - destruct (append_pop_self sp l x Hne Hwfc1 Hwfc Hd Hs Hd2 Hnb) as (p' & H1 & H2).
+    eexists _, p'. split; [exact H1|]. split; [reflexivity | exact H2].
+Qed.
+
+(* when the tail is in canonical form the path TEXT is restored, and the
+   rebuilt text plays no part: no guard on the canonical text of the path *)
+Theorem append_pop_text sp l x :
+  l <> [] -> wfc sp l = true -> wfc sp (l ++ [x]) = true ->
+  dot_text_ok sp (render_ref sp l) = true ->
+  String.eqb (body (sep_char sp) x) (tail_canon sp (tail_eff x)) = true ->
+  exists p', y_pop (y_append (body (sep_char sp) x) (y_new (render_ref sp l)))
+             = (Ok (kseg false (sep_char sp) (plain_x (tail_eff x))), p')
+             /\ y_orig p' = render_ref sp l /\ fst (y_escaped p') = Ok (segs_of l).
+Proof.
+  intros Hne Hwfc1 Hwfc Hd Hb.
+  destruct (needs_sep x) eqn:Hs.
+  - assert (Ee : tail_eff x = x).
+    { apply tail_eff_id. destruct x as [[ty at_] st]. destruct ty as [[]|]; try reflexivity; discriminate Hs. }
+    rewrite Ee in *. destruct (wfc_split _ _ Hwfc1) as [Hwf _].
+    apply append_pop_cut; assumption.
+  - apply append_pop_self_cut; assumption.
+Qed.
